@@ -288,7 +288,28 @@ impl FaultProbe {
             if let Some(fv) = &final_view {
                 // a refresh in between must not wedge the replica
                 let o1 = w.apply(&Op::Refresh(r));
+                // what the live replica shows after the failed meld must be backed by its storage: a replica
+                // reopened on that storage shows the same (nothing is staged, everything applicable was refreshed)
+                if o1.is_ok() {
+                    let live = w.view(r);
+                    let reopened = fresh_view(&w.reps[r].store.snapshot(), "C09 reopen(after failed meld + refresh)");
+                    cx.count("failed_meld_live_vs_reopened");
+                    if live != reopened {
+                        cx.violation("C09", "C09:after-a-failed-meld-the-live-replica-shows-what-its-storage-does-not-hold", sc, &h,
+                            json!({"failed_write": k, "differs": diff_keys(&live, &reopened), "live": live, "reopened": reopened}));
+                        return;
+                    }
+                }
                 let o2 = w.apply(&Op::Sync(r, s));
+                if o2.is_ok() {
+                    let live = w.view(r);
+                    let reopened = fresh_view(&w.reps[r].store.snapshot(), "C09 reopen(after meld retry)");
+                    if live != reopened {
+                        cx.violation("C09", "C09:after-the-meld-retry-the-live-replica-shows-what-its-storage-does-not-hold", sc, &h,
+                            json!({"failed_write": k, "differs": diff_keys(&live, &reopened), "live": live, "reopened": reopened}));
+                        return;
+                    }
+                }
                 let v = w.view(r);
                 if !o1.is_ok() || !o2.is_ok() || &v != fv {
                     cx.violation("C09", "C09:meld-retry-does-not-reach-the-uninterrupted-state", sc, &h, json!({"failed_write": k, "refresh": o1.text(), "retry": o2.text(), "differs": diff_keys(&v, fv), "view": v, "expected": fv}));
